@@ -579,7 +579,80 @@ def check_speedy_prealloc(u):
     return obligations, failures, samples
 
 
-CHECKS = {"speedy_prealloc": check_speedy_prealloc, "from_conn": check_from_conn, "sql_actor_scoping": check_sql_actor_scoping, "local_write_sequence": check_local_write_sequence, "insert_local_changes": check_insert_local_changes, "authz_layer": check_authz_layer, "readonly_guard": check_readonly_guard, "read_pool": check_read_pool}
+def check_offer_loops(u):
+    """C10: process_multiple_changes visits every offered changeset: the loops that iterate over the offered changesets
+    (`for … in changes`, `for (actor_id, changes) in unknown_changes`) are left only by running to completion or by `return Err`
+    (which rolls the transaction back); a `break` would silently abandon the changesets queued behind the current one."""
+    file = u["file"]
+    src, msk, o, c = _fn_body(file, u["fn"], u.get("impl"))
+    loops = []
+    for m in re.finditer(r"\b(for\b[^{;]*?\bin\b[^{;]*?|while\b[^{;]*?|loop\s*)\{", msk[o:c]):
+        ob = o + m.end() - 1
+        loops.append((o + m.start(), ob, match_delim(msk, ob), re.sub(r"\s+", " ", src[o + m.start():ob]).strip()))
+    offer = [l for l in loops if re.match(r"for\b.*\bin\s+(changes|unknown_changes)\s*$", l[3])]
+    if len(offer) < 2:
+        raise LostAnchor("process_multiple_changes: expected the loops `for … in changes` / `for … in unknown_changes`, found %s" % [l[3] for l in loops])
+    obligations, failures, samples = [], [], []
+    for (ls, ob, cb, hdr) in offer:
+        name = "offer-loop-has-no-early-exit:%s" % re.sub(r"[^A-Za-z0-9_]+", "-", hdr).strip("-")
+        obligations.append(name)
+        for bm in re.finditer(r"\bbreak\b", msk[ob:cb]):
+            pos = ob + bm.start()
+            inner = max((l for l in loops if l[1] < pos < l[2]), key=lambda l: l[1])
+            if inner[1] == ob:
+                failures.append((name, _line(src, pos), "`break` leaves the loop over offered changesets: the changesets behind the current one are neither applied, buffered nor reported"))
+        # `return Ok(..)` inside the loop would be an early exit too
+        for rm in re.finditer(r"\breturn\s+Ok\b", msk[ob:cb]):
+            failures.append((name, _line(src, ob + rm.start()), "`return Ok` inside the loop over offered changesets"))
+        samples.append("%s:%d `%s {…}`: no break / return Ok at this loop's level" % (file, _line(src, ls), hdr))
+    return obligations, failures, samples
+
+
+def check_single_snapshot(u):
+    """C05: handle_need answers one need from ONE database snapshot: a read transaction is opened on the connection before the first
+    query and every statement is prepared on it.  Otherwise each query sees its own snapshot, and a version that is applied (and its
+    buffered rows cleaned) between the `crsql_changes` query and the gaps/buffered query is declared empty although it holds changes.
+    This is the hypothesis "the database functions are fixed during the call" of the Verus unit c05_serve, decided here on the text."""
+    from .extract import _receiver_start
+    file = u["file"]
+    src, msk, o, c = _fn_body(file, u["fn"], u.get("impl"))
+    body = msk[o:c]
+    obligations = ["read-transaction-opened-on-the-connection-before-the-first-query", "every-statement-is-prepared-on-that-transaction",
+                   "connection-not-used-directly-once-the-transaction-is-open"]
+    failures = []
+    preps = [o + m.start() for m in re.finditer(r"\.\s*(prepare_cached|prepare|query_row|execute|execute_batch)\s*\(", body)]
+    if not preps:
+        raise LostAnchor("handle_need: no prepare/query calls found")
+    txm = re.search(r"\blet\s+(?:mut\s+)?(\w+)\s*(?::[^=;]+)?=\s*(\w+)\s*\.\s*(transaction|transaction_with_behavior|unchecked_transaction)\s*\(", body)
+    txname = None
+    if not txm:
+        failures.append((obligations[0], _line(src, preps[0]), "no `let tx = conn.transaction()` before the first query: every statement runs in its own implicit transaction (own snapshot)"))
+    else:
+        txname = txm.group(1)
+        if o + txm.start() > preps[0]:
+            failures.append((obligations[0], _line(src, preps[0]), "a query runs before the read transaction is opened"))
+    roots = []
+    for p_ in preps:
+        try:
+            rs = _receiver_start(msk, p_)
+        except Unsupported as e:
+            raise Unsupported("handle_need: receiver of the call at line %d: %s" % (_line(src, p_), e))
+        root = re.match(r"\w+", msk[rs:p_])
+        roots.append((p_, root.group(0) if root else "?"))
+    stmt_vars = set(m.group(1) for m in re.finditer(r"\blet\s+(?:mut\s+)?(\w+)\s*=\s*%s\s*\.\s*prepare(?:_cached)?\s*\(" % (txname or "tx"), body))
+    for p_, root in roots:
+        if txname and root != txname and root not in stmt_vars:
+            failures.append((obligations[1], _line(src, p_), "statement prepared/run on `%s`, not on the read transaction `%s`" % (root, txname)))
+    if txm:
+        conn = txm.group(2)
+        after = body[txm.end():]
+        mm = re.search(r"\b%s\b" % re.escape(conn), after)
+        if mm:
+            failures.append((obligations[2], _line(src, o + txm.end() + mm.start()), "`%s` is used directly after the transaction was opened" % conn))
+    return obligations, failures, ["%s:%d `%s`; %d prepare/query calls rooted at it" % (file, _line(src, o + (txm.start() if txm else 0)), src[o + txm.start():o + txm.end()] + "…)" if txm else "?", len(preps))]
+
+
+CHECKS = {"single_snapshot": check_single_snapshot, "offer_loops": check_offer_loops, "speedy_prealloc": check_speedy_prealloc, "from_conn": check_from_conn, "sql_actor_scoping": check_sql_actor_scoping, "local_write_sequence": check_local_write_sequence, "insert_local_changes": check_insert_local_changes, "authz_layer": check_authz_layer, "readonly_guard": check_readonly_guard, "read_pool": check_read_pool}
 
 
 def run_unit(prop, u, tier, ctx, here):
